@@ -365,6 +365,18 @@ def finding_fails(ctx, f):
     if f['id'] == 'EIGVMAP':
         rec, orth = _eig_batch_error(f['witness']['A'])
         return orth > 1e-9
+    if f['id'] == 'EIGSIGN0':
+        import jax
+        import jax.numpy as np
+        import numpy as onp
+        from optimism import TensorMath as TM
+        A = onp.array(f['witness']['A'])
+        worst = 0.0
+        for fn in (TM.eigen_sym33_unit, jax.jit(TM.eigen_sym33_unit)):
+            lam, V = fn(np.array(A))
+            lam, V = onp.array(lam), onp.array(V)
+            worst = max(worst, float(onp.max(onp.abs(V @ onp.diag(lam) @ V.T - A))), float(onp.max(onp.abs(V.T @ V - onp.eye(3)))))
+        return not worst <= 1e-9
     return False
 
 
